@@ -117,7 +117,7 @@ pub fn budget(id: &str, tier: &str) -> u64 {
         _ => 50_000,
     };
     if tier == "thorough" {
-        quick * 12
+        quick * 30
     } else {
         quick
     }
